@@ -189,6 +189,8 @@ impl ProbeSpace {
                 s("11.0.0.0"),
                 s("::1"),
                 None,
+                s("2001:db8::1"),
+                s("2001:db9::1"),
             ],
             methods: vec![None, s("GET"), s("POST"), s("PUT"), s("get")],
             headers: vec![
@@ -639,6 +641,10 @@ pub fn deviations() -> Vec<(usize, String, Box<dyn Fn(&mut RuleSpec) + Send + Sy
     add(2, "ip=in10/8|in192.168/16", Box::new(|r| r.ips = Some(vec![(true, "10.0.0.0/8".into()), (true, "192.168.0.0/16".into())])));
     add(2, "ip=in10/8|in10.1/16", Box::new(|r| r.ips = Some(vec![(true, "10.0.0.0/8".into()), (true, "10.1.0.0/16".into())])));
     add(2, "ip=garbage", Box::new(|r| r.ips = Some(vec![(true, "garbage".into())])));
+    // the other address family, a single address (no prefix length), a range and its negation in one rule
+    add(2, "ip=in2001:db8::/32", Box::new(|r| r.ips = Some(vec![(true, "2001:db8::/32".into())])));
+    add(2, "ip=in10.0.0.1", Box::new(|r| r.ips = Some(vec![(true, "10.0.0.1".into())])));
+    add(2, "ip=in192.168/16|notin10/8", Box::new(|r| r.ips = Some(vec![(true, "192.168.0.0/16".into()), (false, "10.0.0.0/8".into())])));
     // methods
     add(3, "methods=[]", Box::new(|r| r.methods = Some(vec![])));
     add(3, "methods=[GET]", Box::new(|r| r.methods = Some(vec!["GET".into()])));
